@@ -8,7 +8,7 @@ META = {
     "claimed": True,
     "technique": "Lean 4 invariant proofs (single-epoch 18-clause and multi-epoch 22-clause invariants, induction over all interleavings) of the count-based two-round "
                  "termination detection, composed with the message-movement model + trace acceptance of real runs under simmpi",
-    "text": "C02ME_exit_implies_quiescent (YgmVerif.BarrierME): for every number of ranks and every interleaving of issue/start/finish/callback/enter/contribute/result/exit "
+    "text": "[liveness half, same model: C02ME_never_stuck / C02ME_waiting_rank_is_served (no deadlock inside the barrier), C02ME_rounds_after_quiescence / C02ME_exit_bounded / C02ME_all_exit (after quiescence every rank leaves within two further rounds; the driver measures this at every real exit), C03_joint_never_stuck on the product with the message-movement model] C02ME_exit_implies_quiescent (YgmVerif.BarrierME): for every number of ranks and every interleaving of issue/start/finish/callback/enter/contribute/result/exit "
             "steps over ANY number of overlapping barrier epochs, when the exit rule (two consecutive identical, balanced global count pairs) enables the first return of barrier e, "
             "every rank is inside barrier e, no message is undelivered, no handler runs, no callback is pending; C02_exit_implies_quiescent is the same for one epoch from an arbitrary "
             "balanced start state. C02C01_exit_implies_all_executed (YgmVerif.Comm = Deliver x BarrierME): at that moment every async issued so far by main programs, handlers and "
